@@ -265,6 +265,10 @@ def run_uvalue(prop, tier, replay=None):
             winc = [c for i, c in enumerate(winc) if corner(c) or (i * 7 + seed()) % 12 == 0]
         reqs, meta = [], []
         discarded = 0
+        extra_models = []
+        if not quick and payload is None:
+            from convert_checks import converted_corpus_models
+            extra_models = converted_corpus_models(os.path.join(wd, "models"))
         if prop == "C06":
             for i, c in enumerate(wallc):
                 v = c["v"]
@@ -278,6 +282,9 @@ def run_uvalue(prop, tier, replay=None):
                     path = os.path.join(REPO, "bemodel/tests/data", p)
                     reqs.append({"id": len(meta), "path": path})
                     meta.append(("real", path))
+            for path in extra_models:
+                reqs.append({"id": len(meta), "path": path})
+                meta.append(("real", path))
         else:
             for k in range(0, len(winc), 200):
                 chunk = winc[k:k + 200]
@@ -288,6 +295,9 @@ def run_uvalue(prop, tier, replay=None):
                     path = os.path.join(REPO, "bemodel/tests/data", p)
                     reqs.append({"id": len(meta), "path": path})
                     meta.append(("realwin", path))
+            for path in extra_models:
+                reqs.append({"id": len(meta), "path": path})
+                meta.append(("realwin", path))
         write_ndjson(reqf, reqs)
         vh(["uvalue", "--reqs", reqf, "--out", trace + ".raw"], timeout=3600)
         raw = read_ndjson(trace + ".raw")
